@@ -111,10 +111,13 @@ class Built:
                     ann[nm] = int if k == "m" else List[int]
                     kw = {}
                     if n.get("default") is not None:
-                        kw["default"] = py_val(n["default"])
+                        if n.get("factory"):
+                            kw["default_factory"] = (lambda v: lambda: copy.deepcopy(v))(py_val(n["default"]))
+                        else:
+                            kw["default"] = py_val(n["default"])
                     if n["inv"]:
                         kw["invalidated_by"] = inv_arg(n["inv"])
-                    if kw.keys() == {"default"} and n.get("bare"):
+                    if set(kw) == {"default"} and n.get("bare"):
                         ns[nm] = kw["default"]           # `a: int = 3`
                     elif kw:
                         ns[nm] = Attr(**kw)
@@ -122,6 +125,8 @@ class Built:
                     if k == "t":
                         ann[nm] = int
                     ns[nm] = make_prop(n["id"], n["over"], n["cache"], n["inv"])
+                if k in "ml" and n.get("override") and n["override"]["level"] == level:
+                    ns[nm] = py_val(n["override"]["value"])   # subclass re-defaults the attribute: `n0 = 7`
                 if k == "p" and n.get("redecl") and n["redecl"]["level"] == level:
                     r = n["redecl"]
                     ns[nm] = make_prop(n["id"], r["over"], r["cache"], r["inv"])
@@ -354,13 +359,21 @@ def c_flags(over, cache):
     return f"(mkpf {cbool(over)} {cbool(cache)})"
 
 
+def resolved_default(n):
+    """Attr.lookup_default_value(type(obj)): the most derived class attribute wins, else default / factory"""
+    if n.get("override"):
+        return n["override"]["value"]
+    return n.get("default")
+
+
 def c_cdesc(desc, attr_order):
     nodes = {n["id"]: n for n in desc["nodes"]}
     attrs = []
     for i in attr_order:
         n = nodes[i]
         if n["kind"] in "ml":
-            dflt = "None" if n.get("default") is None else f"(Some {c_val(n['default'])})"
+            rd = resolved_default(n)
+            dflt = "None" if rd is None else f"(Some {c_val(rd)})"
             attrs.append(f"({i}, mka {dflt} None {clist(n['inv'], c_dep)})")
         else:  # typed property: masked managed attribute, invalidated_by copied from the property
             attrs.append(f"({i}, mka None (Some {c_flags(n['over'], n['cache'])}) {clist(n['inv'], c_dep)})")
@@ -464,7 +477,7 @@ def gen_desc(rng, tier, max_nodes, max_len):
     kinds = []
     for i in range(n_nodes):
         r = rng.random()
-        kinds.append("m" if r < 0.30 else "l" if r < 0.40 else "u" if r < 0.50 else "p" if r < 0.85 else "t")
+        kinds.append("m" if r < 0.28 else "l" if r < 0.42 else "u" if r < 0.52 else "p" if r < 0.86 else "t")
     if not any(k in "mlu" for k in kinds):
         kinds[0] = "m"
     if not any(k in "pt" for k in kinds):
@@ -476,6 +489,10 @@ def gen_desc(rng, tier, max_nodes, max_len):
             if rng.random() < 0.55:
                 n["default"] = rng.choice(VALS_INT) if k == "m" else ["l", rng.choice(VALS_LIST)]
                 n["bare"] = rng.random() < 0.3
+                n["factory"] = (not n["bare"]) and rng.random() < 0.25
+            lv = [x for x in ([1] if specsub else []) + ([2] if plainsub else []) if x > n["level"]]
+            if lv and rng.random() < 0.12:
+                n["override"] = {"level": rng.choice(lv), "value": rng.choice(VALS_INT) if k == "m" else ["l", rng.choice(VALS_LIST)]}
         elif k == "t":
             n["level"] = 1 if (specsub and rng.random() < 0.3) else 0
         elif k == "p":
@@ -533,7 +550,7 @@ def gen_desc(rng, tier, max_nodes, max_len):
     # constructor arguments and __post_init__ reads
     kwargs = []
     for n in nodes:
-        if n["kind"] in "ml" and (n.get("default") is None and rng.random() < 0.8 or rng.random() < 0.3):
+        if n["kind"] in "ml" and (resolved_default(n) is None and rng.random() < 0.8 or rng.random() < 0.3):
             kwargs.append((n["id"], rng.choice(VALS_INT) if n["kind"] == "m" else ["l", rng.choice(VALS_LIST)]))
         elif n["kind"] == "t" and n["over"] and rng.random() < 0.15:
             kwargs.append((n["id"], rng.choice(VALS_INT)))
@@ -696,7 +713,7 @@ def main(tier, replay=None):
         return 1 if (code or runs[0]["py"]) else 0
     chk.proofs(extra_targets=["Corr/InvalCorr.vo"])
     quick = tier == "quick"
-    n_cases = 3500 if quick else 36000
+    n_cases = 7000 if quick else 60000
     descs, gen_kind = [], []
     for d in corpus_cases():
         descs.append(d)
@@ -755,6 +772,8 @@ def main(tier, replay=None):
             feat[k] += bool(d[k])
         feat["wildcard"] += any("*" in n["inv"] for n in d["nodes"])
         feat["redecl"] += any(n.get("redecl") for n in d["nodes"])
+        feat["default_factory"] = feat.get("default_factory", 0) + any(n.get("factory") for n in d["nodes"])
+        feat["subclass_redefault"] = feat.get("subclass_redefault", 0) + any(n.get("override") for n in d["nodes"])
         feat["post_init_reads"] += bool(d["post"])
         feat["plainsub_dependant"] += any(n["kind"] == "p" and (n["level"] == 2 or (n.get("redecl") or {}).get("level") == 2) and n["inv"] for n in d["nodes"])
         feat["specsub_dependant"] += any(n.get("level") == 1 and n["inv"] for n in d["nodes"])
